@@ -65,6 +65,35 @@ def gen(files):
     return out
 
 
+def gen2(files):
+    """Second operator set: delete a one-line statement, swap two adjacent one-line statements,
+    force a condition, turn continue into break, drop an else-less early return."""
+    muts = []
+    for f in files:
+        src = open(os.path.join("/repo", f)).read()
+        cut = src.find("#[cfg(test)]\nmod ")
+        body = src if cut < 0 else src[:cut]
+        lines = body.split("\n")
+        def simple(l):
+            st = l.strip()
+            return st.endswith(";") and not st.startswith(("let ", "use ", "//", "pub ", "const ", "static ", "type ", "return", "#")) and st.count("(") == st.count(")") and st.count("{") == st.count("}")
+        for ln, line in enumerate(lines):
+            st = line.strip()
+            if simple(line):
+                muts.append({"file": f, "line": ln + 1, "old": line, "new": line[:len(line) - len(line.lstrip())] + "/* deleted */", "rule": "delete statement"})
+                if ln + 1 < len(lines) and simple(lines[ln + 1]) and lines[ln + 1].strip() != st:
+                    muts.append({"file": f, "line": ln + 1, "old": line, "new": lines[ln + 1] + " " + line.strip(), "rule": "swap with next statement", "also_delete_next": True})
+            m = re.match(r"^(\s*)(\} else )?if (?!let )(.*) \{$", line)
+            if m and "=>" not in line:
+                muts.append({"file": f, "line": ln + 1, "old": line, "new": "%s%sif true {" % (m.group(1), m.group(2) or ""), "rule": "condition := true"})
+                muts.append({"file": f, "line": ln + 1, "old": line, "new": "%s%sif false {" % (m.group(1), m.group(2) or ""), "rule": "condition := false"})
+            if st == "continue;":
+                muts.append({"file": f, "line": ln + 1, "old": line, "new": line.replace("continue;", "break;"), "rule": "continue -> break"})
+            if st == "break;":
+                muts.append({"file": f, "line": ln + 1, "old": line, "new": line.replace("break;", "continue;"), "rule": "break -> continue"})
+    return muts
+
+
 def sh(cmd, cwd=None, env=None, timeout=900):
     try:
         p = subprocess.run(cmd, cwd=cwd, env=env, shell=isinstance(cmd, str), stdout=subprocess.PIPE, stderr=subprocess.STDOUT, text=True, timeout=timeout)
@@ -98,6 +127,8 @@ def run_mutant(args):
     if lines[m["line"] - 1] != m["old"]:
         return dict(m, status="stale")
     lines[m["line"] - 1] = m["new"]
+    if m.get("also_delete_next"):
+        lines[m["line"]] = ""
     open(p, "w").write("\n".join(lines))
     env = dict(os.environ, CARGO_TARGET_DIR=os.path.join(ROOT, "t%d" % w), CARGO_NET_OFFLINE="true", RUSTFLAGS="-Awarnings")
     rc, out = sh("cargo test --offline --no-fail-fast -q 2>&1 | tail -40", cwd=d, env=env, timeout=600)
@@ -135,6 +166,8 @@ def main():
             files = a.pop(0).split(",")
         elif x == "--out":
             outp = a.pop(0)
+        elif x == "--ops2":
+            pass
     if files is None:
         files = []
         for dp, dn, fn in os.walk("/repo/src"):
@@ -142,7 +175,7 @@ def main():
                 if f.endswith(".rs") and f not in ("tests.rs",) and "/tests" not in dp:
                     files.append(os.path.relpath(os.path.join(dp, f), "/repo"))
         files.sort()
-    muts = gen(files)
+    muts = gen2(files) if "--ops2" in sys.argv else gen(files)
     if limit:
         muts = muts[:limit]
     print("%d mutants over %d files" % (len(muts), len(files)))
